@@ -461,6 +461,12 @@ fn check_gallery(cfg: &Cfg, before: Option<&TrackView>, after: &TrackView, det: 
     ensure!(!after.gallery.is_empty(), "c13-gallery-empty", "op {}: track {} has no class-0 observation after an update", k, after.id);
     // index 0 is the newest entry and the only one with a box
     let newest = &after.gallery[0];
+    if let Some(oa) = own_area {
+        match newest.own_area {
+            Some(stored) => ensure!((stored as f64 - oa).abs() <= 2e-3, "c13-own-area-value", "op {}: track {}: the newest observation is stored with own-area share {} but {} of the detection is uncovered", k, after.id, stored, oa),
+            None => return Err(Fail::new("c13-own-area-lost", format!("op {}: track {}: the newest observation carries no own-area share although an own-area threshold is configured", k, after.id))),
+        }
+    }
     ensure!(newest.bbox.is_some() && newest.quality == q, "c13-newest-first", "op {}: track {}: gallery entry 0 is not the newest observation (quality {} vs {}, box {:?})", k, after.id, newest.quality, q, newest.bbox);
     for (j, g) in after.gallery.iter().enumerate().skip(1) {
         ensure!(g.bbox.is_none(), "c13-old-box-kept", "op {}: track {}: gallery entry {} still carries a box", k, after.id, j);
